@@ -13,6 +13,7 @@ import CBV.Lemmas.C07Build
 import Mathlib.Tactic.Ring
 import Mathlib.Tactic.Linarith
 import Mathlib.Algebra.Order.Field.Rat
+import CBV.Gen.TC07
 
 namespace CBV.C07
 
